@@ -56,7 +56,7 @@ def _spawn(job, scratch, env):
         json.dump(q, f)
     job.t0 = time.time()
     job.proc = subprocess.Popen(
-        [PY, "-m", "vlib.ch", job.qfile, job.rfile],
+        [PY, "-m", "vlib.z3q" if q.get("kind") == "z3" else "vlib.ch", job.qfile, job.rfile],
         cwd=ROOT,
         env=env,
         stdout=subprocess.DEVNULL,
@@ -155,6 +155,7 @@ def run_property(prop, tier, seed=0, only=None, jobs=None, verbose=True):
                 if not rp.get("reproduced"):
                     # model-level only: never an alarm; block and continue (DESIGN 2.4)
                     rec["spurious"].append({"args": args, "detail": rp.get("detail")})
+                    job.q.setdefault("block_args", []).append(args)
                     blk = " and ".join("%s == %r" % (k, v) for k, v in args.items())
                     job.q["blocks"].append(blk or "True")
                 else:
@@ -178,6 +179,7 @@ def run_property(prop, tier, seed=0, only=None, jobs=None, verbose=True):
                     if hit["id"] not in known_printed:
                         known_printed.add(hit["id"])
                         print("KNOWN-FINDING: property=%s %s: %s" % (prop, hit["id"], hit["where"]), flush=True)
+                    job.q.setdefault("block_args", []).append(args)
                     if hit["match"] not in job.q["blocks"]:
                         job.q["blocks"].append(hit["match"])
                     else:
